@@ -307,6 +307,11 @@ def directive_garbage(ctx, n):
         dot = rng.choice(['.', '.', '.', '#', ''])
         pre = rng.choice(['', '', '', '.msp430\n', '.z80\n', '.macro M(a)\n.db a\n.endm\n', '.define D 5\n', '.scope\n', '.func f\n',
                           '.if 1\n', '.repeat 2\n', '.bss\n', 'X:\n', '.set X=1\n'])
+        if pre == '.repeat 2\n' and d in ('org', 'resb', 'resw', 'align', 'align_bits', 'align_bytes', 'low_address', 'high_address'):
+            # .repeat copies every byte between the location counter at .repeat and at .endr: a block that moves the
+            # counter costs time and memory proportional to the distance (finding time-repeat-org, see canaries())
+            pre = '.if 1\n'
+
         post = rng.choice(['\n', '\n', '\n', '', '\n.db 1\n', '\n.endif\n', '\n.endr\n', '\n.endm\n', '\n.ends\n', '\n.endf\n',
                            '\nM(1)\n', '\n.db D\n', '\n.db X\n'])
         out.append(('dir:' + d, pre + dot + d + a + post))
